@@ -1588,7 +1588,7 @@ func main() {
 		plans = loadReplay(*replay)
 	} else {
 		g := &gen{r: rng.New(*seed)}
-		nRandom, maxRounds := 300, 4
+		nRandom, maxRounds := 220, 4 // quick volume reduced when the interrupted start-ups came in (each adds a child process)
 		if *tier == "thorough" {
 			nRandom, maxRounds = 3000, 8
 		}
